@@ -318,10 +318,15 @@ class Sim:
             self.ev('stop-returned', self.esme.session_state.name)
         self._stop_task = self.loop.create_task(_stop())
 
-    def run(self, horizon):
+    def run(self, horizon, stop_first=False):
         """run start() until it ends or `horizon` virtual seconds passed; returns how it ended"""
         async def main():
             t = self.loop.create_task(self.esme.start(), name='start')
+            if stop_first:
+                # stop() requested before start() took its first step
+                self.ev('stop-called', self.esme.session_state.name)
+                await self.esme.stop()
+                self.ev('stop-returned', self.esme.session_state.name)
 
             def watch():
                 st = self.esme.session_state.name
